@@ -20,7 +20,7 @@ from simkit import arwriter
 
 ID = "C06"
 LEVEL = "exploration"
-TIERS = {"quick": {"runs": 30000, "wall": 120}, "thorough": {"runs": 1500000, "wall": 1500}}
+TIERS = {"quick": {"runs": 100000, "wall": 120}, "thorough": {"runs": 1500000, "wall": 1500}}
 RULE = ("world = seeded ar archive (0..6 members, GNU or BSD short names incl. duplicates, "
         "sizes 0/odd/even, binary payloads with and without final newline, payloads that "
         "contain header-looking text), opened by 1..3 ArFile instances over one shared file "
